@@ -56,6 +56,14 @@ CHECKS = {
    "Runtime monitor: a raw-socket client and a raw recording responder on a piko listener compare, per seeded request, what was sent with what the upstream saw and what the upstream answered with what the client received, modulo the documented additions; the gateway failure matrix (400/502/504, upgrade exemption, timing bounds) is enumerated completely on the local and the forwarded path with a 20 s no-hang watchdog.",
    "Only RFC-legal request targets (no raw non-ASCII); reason phrases, header-name case and framing headers are not compared; responses always carry a Content-Type.",
    "runtime monitoring: differential wire-level oracle (sent vs seen, answered vs received) + enumerated fault matrix with timing bounds", "4/C08"),
+ "C09": (E2, "fault_enumeration",
+   "Runtime monitor on fully assembled real nodes with authentication on all three ports: the complete route x token-variation x key-configuration matrix (routes read from the running engines; ~70 token variations incl. alg=none, algorithm confusion, tampering, expiry/nbf, audience/issuer, JWKS kid handling, header precedence) is sent through raw sockets; a non-valid token must get 401 with nothing observed behind the port, a valid one exactly what the unauthenticated twin answers.",
+   "Handler execution is observed through sinks (recording upstream, recording forward target, registry), not by instrumenting handlers; expiry margins of two minutes.",
+   "runtime monitoring: exhaustive enumeration of a finite fault (token) list against every registered route, black-box oracle with sinks", "4/C09"),
+ "C10": (E2, "fault_enumeration",
+   "Runtime monitor on real nodes: claim-set x naming x target x path matrix on the proxy port (stamp of the serving upstream identifies the endpoint actually routed to), claim-set x endpoint matrix on the upstream port (registry delta identifies the endpoint registered), and the tenant-table x signer x tenant-header matrix; all enumerated completely.",
+   "HMAC keys only (families are C09's subject); 502 for a permitted endpoint retried once after routing re-settles.",
+   "runtime monitoring: exhaustive enumeration of finite claim/tenant matrices with stamp and registry oracles", "4/C10"),
  "C11": (E1, "exploration",
    "Runtime monitor over seeded simulator executions of the real membership code with a logical clock: per-step flag rules on every survivor (local node never flagged/removed, left only if the owner left, left never revived, flagged nodes scheduled for removal and outside the live set, routing status follows flags, no discovery from a digest marking the node left, sweeps remove exactly what is due) plus bounded crash/leave closures (forgotten by all within expiry + (N+3) detection periods, stays forgotten for two more expiry periods).",
    "Failure detector replaced by a logical-clock implementation of the same interface (the real one is C12's subject); sequential scheduler; liveness restated as a bound.",
